@@ -900,12 +900,12 @@ func c20ServerMsg(p *ana.Prog, r *ana.Result) {
 		if !ok {
 			return
 		}
-		switch ana.AccessPath(st.Addr) {
-		case "plaintextCookie.C2S":
+		switch {
+		case localFieldStore(st, "ServerCookie", "C2S"):
 			c2s = ana.AccessPath(st.Val) == "data.C2sKey"
-		case "plaintextCookie.S2C":
+		case localFieldStore(st, "ServerCookie", "S2C"):
 			s2c = ana.AccessPath(st.Val) == "data.S2cKey"
-		case "plaintextCookie.Algo":
+		case localFieldStore(st, "ServerCookie", "Algo"):
 			k, _ := ana.ConstInt(st.Val)
 			algo = k == 0x0f
 		}
